@@ -70,6 +70,11 @@ def run(res, tier, build_ok):
                 kw[n] = v
                 if "blocksize" in kw and kw["blocksize"] is not None and n != "blocksize":
                     kw["blocksize"] = rng.choice([1, 512])
+                # keep the product inside what the harness can afford (the base case may carry a large count)
+                for cnt in ("tl", "nb"):
+                    if isinstance(kw.get(cnt), int) and isinstance(kw.get("blocksize"), int) and kw["blocksize"] > 0 \
+                            and c["cls"].startswith(("Read", "Write1")):
+                        kw[cnt] = min(kw[cnt], c01.CAP // kw["blocksize"])
                 extra.append(kw)
         for kw0 in cases[:25 * scale] + extra:
             kw = c01.finalize_kwargs(c, kw0, rng)
@@ -91,6 +96,22 @@ def run(res, tier, build_ok):
                               "%s: dataout/datain is not a byte buffer (%s/%s)" % (c["cls"], type(cmd.dataout).__name__, type(cmd.datain).__name__),
                               {"class": c["cls"], "args": shown})
                 continue
+            # what the CDB itself announces, read at the standard's position (not what the caller asked for)
+            for f in s["fields"]:
+                if f["kind"] != "arg" or not isinstance(kw.get(f["arg"]), int) or kw[f["arg"]] >= (1 << f["width"]):
+                    continue        # (the boundary values above include lengths wider than the field: outside the domain)
+                announced = None
+                if f["arg"] in ("alloclen", "alloc_len"):
+                    announced = cmds.std_field_value(cmd.cdb, f)
+                elif f["arg"] == "tl" and c["cls"] in ("Read10", "Read12", "Read16"):
+                    announced = cmds.std_field_value(cmd.cdb, f) * (kw.get("blocksize") or 0)
+                if announced is not None:
+                    res.count("CDB-announced length vs data-in buffer")
+                    if announced != len(cmd.datain):
+                        res.violation("cls=%s cdb announces" % c["cls"],
+                                      "%s: the CDB announces %d bytes of data-in (%s at byte %d), the data-in buffer has %d bytes" % (
+                                          c["cls"], announced, f["name"], f["byte"], len(cmd.datain)),
+                                      {"class": c["cls"], "args": shown, "cdb": bytes(cmd.cdb).hex(), "datain_len": len(cmd.datain)})
             envd = {k: (v if isinstance(v, (int, bytes, bytearray, type(None))) else None) for k, v in kw.items()}
             for comp in c.get("computed", []):
                 envd[comp] = bytes(cmd.dataout)
